@@ -23,7 +23,33 @@ SRC_DIR = [KANI_DIR]
 GUARD_FLAGS = "--cfg rva_verif"
 
 CAPS = {"quick": 300, "thorough": 1500}          # wall seconds per harness
-MEM_KB = 24 * 1024 * 1024                         # ulimit -v per kani process tree
+MEM_KB = 40 * 1024 * 1024                         # ulimit -v per kani process tree
+MEM_BUDGET_GB = int(os.environ.get("VERIF_MEM_GB", "52"))   # 62 GB machine, no swap
+
+
+class MemBudget:
+    """Admission control: harnesses declare an estimated peak (GB); the sum of the
+    running ones never exceeds the budget (CBMC on the map-heavy harnesses peaks at
+    ~10 GB; sixteen of them at once exhaust the machine and all die)."""
+
+    def __init__(self, total):
+        self.total, self.used, self.cv = total, 0, threading.Condition()
+
+    def acquire(self, n):
+        n = min(n, self.total)
+        with self.cv:
+            while self.used + n > self.total:
+                self.cv.wait()
+            self.used += n
+        return n
+
+    def release(self, n):
+        with self.cv:
+            self.used -= n
+            self.cv.notify_all()
+
+
+MEM = MemBudget(MEM_BUDGET_GB)
 
 NOISE = re.compile(r"^(aborting path|Unwinding loop|Not unwinding|Unwinding recursion)")
 
@@ -39,7 +65,7 @@ def env():
 # --------------------------------------------------------------------------
 # running kani
 
-def kani_cmd(h, target_dir, playback):
+def kani_cmd(h, target_dir, playback, properties=None):
     cmd = ["cargo", "kani", "--target-dir", target_dir,
            "--harness", h["kani_name"], "--exact"]
     z = []
@@ -47,10 +73,17 @@ def kani_cmd(h, target_dir, playback):
         z.append("stubbing")
     if playback:
         z.append("concrete-playback")
+        if properties:
+            z.append("unstable-options")
     for f in z:
         cmd += ["-Z", f]
     if playback:
         cmd += ["--concrete-playback=print"]
+        if properties:
+            # only solve for the checks that failed (a trace for every property is 10x slower)
+            cmd += ["--cbmc-args"]
+            for p in properties:
+                cmd += ["--property", p]
     return cmd
 
 
@@ -241,9 +274,50 @@ def write_replay(prop, h, failed, vals):
     return path
 
 
+def replay_side(path, engine, prop):
+    import sys
+    sys.path.insert(0, os.path.join(ROOT, "mir2smt"))
+    meta = {}
+    vals = []
+    for l in open(path):
+        if l.startswith("# ") and ":" in l:
+            k, v = l[2:].split(":", 1)
+            meta[k.strip()] = v.strip()
+        elif l.strip():
+            vals.append(l.strip())
+    if engine == "e2":
+        import e2
+        e2.build_native()
+        x, y = int(vals[0]), int(vals[1])
+        nat = e2.native(["eval", meta["mnemonic"], x, y], meta["profile"])
+        want = e2.py_ref(e2.MNEMONIC_OP[meta["mnemonic"]], x, y)
+        bad = nat == "PANIC" or int(nat) != want
+        print("replay[e2/%s] %s(%d, %d): native = %s, RV32IM = %d -> %s" % (meta["profile"], meta["mnemonic"], x, y, nat, want,
+                                                                      "reproduced" if bad else "not reproduced"))
+    else:
+        import e3
+        case = [c for c in registry.TEXT_CASES if "e3_" + c["name"] == meta["harness"]]
+        res, _ = e3.run(case)
+        bad = bool(res) and res[0]["verdict"] == "fail"
+        print("replay[e3] '%s' decodes to %s -> %s" % (meta.get("text"), json.dumps(res[0]["decoded"]) if res else "?",
+                                                      "reproduced" if bad else "not reproduced"))
+    if bad:
+        print("VIOLATION property=%s replay=%s" % (prop, path))
+        return 1
+    return 0
+
+
 def replay_file(path):
     name = None
     prop = "?"
+    engine = None
+    for l in open(path):
+        if l.startswith("# engine:"):
+            engine = l.split(":", 1)[1].strip()
+        if l.startswith("# property:"):
+            prop = l.split(":", 1)[1].strip()
+    if engine in ("e2", "e3"):
+        return replay_side(path, engine, prop)
     for l in open(path):
         if l.startswith("# harness:"):
             name = l.split(":", 1)[1].strip()
@@ -308,6 +382,7 @@ def snapshot_sources():
 
 
 def run_harness(prop, h, tier, wq, logdir):
+    got = MEM.acquire(h.get("mem", 3))
     w = wq.get()
     try:
         tdir = os.path.join(WORK, "%s%d" % (os.environ.get("VERIF_WPREFIX", "k"), w))
@@ -331,7 +406,7 @@ def run_harness(prop, h, tier, wq, logdir):
                 return res
             # second run: concrete playback
             log2 = os.path.join(logdir, h["name"] + ".playback.log")
-            st2, text2, wall2 = run_capped(kani_cmd(h, tdir, True), SRC_DIR[0], cap, log2)
+            st2, text2, wall2 = run_capped(kani_cmd(h, tdir, True, [c["name"] for c in relevant]), SRC_DIR[0], cap, log2)
             res["wall_s"] = round(wall + wall2, 2)
             plays = [p for p in parse_playback(text2) if p["kind"] != "cover"]
             for c in relevant:
@@ -348,6 +423,98 @@ def run_harness(prop, h, tier, wq, logdir):
         return res
     finally:
         wq.put(w)
+        MEM.release(got)
+
+
+# --------------------------------------------------------------------------
+# engines E2 (MIR -> SMT) and E3 (native decode + SMT)
+
+def _side_result(h, verdict, reason, wall, solver_s, n_checks, functions):
+    return {"harness": h["name"], "verdict": verdict, "reason": reason, "wall_s": round(wall, 2), "solver_s": solver_s,
+            "n_checks": n_checks, "covers": {"required": 1, "required_satisfied": 1 if verdict != "inconclusive" else 0,
+                                             "informational": {}},
+            "failed": [], "functions": functions, "spec": h, "side_engine": True}
+
+
+def run_e2(prop, hs):
+    import sys
+    sys.path.insert(0, os.path.join(ROOT, "mir2smt"))
+    out = []
+    try:
+        import e2
+        mns = sorted({h["mnemonic"] for h in hs})
+        profiles = sorted({h["profile"] for h in hs})
+        res = {r["name"]: r for r in e2.run(mns, profiles)}
+    except Exception as e:  # never a pass
+        return [_side_result(h, "inconclusive", "E2 driver error: %r" % e, 0, None, 0, []) for h in hs]
+    for h in hs:
+        r = res.get(h["name"])
+        if r is None:
+            out.append(_side_result(h, "inconclusive", "E2 produced no result", 0, None, 0, []))
+            continue
+        sr = _side_result(h, "pass" if r["verdict"] == "pass" else r["verdict"], r.get("reason", ""), r.get("wall_s", 0),
+                          sum(r.get("solver_s", {}).values()) if r.get("solver_s") else None, r.get("queries", 0),
+                          ["riscv_analysis::cfg::MathOp::operate (MIR, overflow-checks=%s)" % ("on" if h["profile"] == "dev" else "off")])
+        for f in r.get("failed", []):
+            if not check_relevant(prop, {"desc": f["check"]}):
+                continue
+            entry = {"check": f["check"], "file": "riscv_analysis/src/cfg/ops.rs", "line": None,
+                     "function": "riscv_analysis::cfg::MathOp::operate", "replay": None, "values": f.get("values"),
+                     "dev": None, "release": None}
+            if f.get("values") is not None:
+                d = os.path.join(REPLAYS, prop)
+                os.makedirs(d, exist_ok=True)
+                path = os.path.join(d, "%s.txt" % h["name"])
+                with open(path, "w") as fh:
+                    fh.write("# property: %s\n# engine: e2\n# harness: %s\n# check: %s\n# mnemonic: %s\n# profile: %s\n%d\n%d\n" % (
+                        prop, h["name"], f["check"], h["mnemonic"], h["profile"], f["values"][0], f["values"][1]))
+                entry["replay"] = path
+                st = "reproduced" if f.get("reproduced") else "not-reproduced"
+                # a dev-profile counterexample reproduces in the dev build; a release-only one in the release build
+                entry["dev"] = st
+                entry["dev_msg"] = "native %s(%d, %d) = %s, RV32IM = %s" % (h["mnemonic"], f["values"][0], f["values"][1], f.get("native"), f.get("expected"))
+                entry["release"] = st if h["profile"] == "release" else None
+            sr["failed"].append(entry)
+        if r["verdict"] == "fail" and not sr["failed"]:
+            sr["verdict"], sr["reason"] = "pass-other", "only checks of other properties failed"
+        out.append(sr)
+    return out
+
+
+def run_e3(prop, hs):
+    import sys
+    sys.path.insert(0, os.path.join(ROOT, "mir2smt"))
+    try:
+        import e3
+        cases = [h["case"] for h in hs]
+        res, dt = e3.run(cases)
+        res = {r["name"]: r for r in res}
+    except Exception as e:  # never a pass
+        return [_side_result(h, "inconclusive", "E3 driver error: %r" % e, 0, None, 0, []) for h in hs]
+    out = []
+    for h in hs:
+        r = res.get(h["name"])
+        if r is None:
+            out.append(_side_result(h, "inconclusive", "E3 produced no result", 0, None, 0, []))
+            continue
+        reason = {"pass": "decoded node(s) have the manual's effect for all register contents" + (" (z3+cvc5 unsat)" if r.get("smt_query") else " (identical terms)"),
+                  "fail": "%d failed check(s)" % len(r["failed"]), "inconclusive": r.get("inconclusive", "")}[r["verdict"]]
+        sr = _side_result(h, r["verdict"], reason, dt, sum(r.get("solver_s", {}).values()) if r.get("solver_s") else None,
+                          2 if r.get("smt_query") else 1, ["<ParserNode as TryFrom<&mut Peekable<Lexer>>>::try_from (native)", "Lexer::next (native)"])
+        for f in r["failed"]:
+            d = os.path.join(REPLAYS, prop)
+            os.makedirs(d, exist_ok=True)
+            path = os.path.join(d, "%s.txt" % h["name"])
+            with open(path, "w") as fh:
+                fh.write("# property: %s\n# engine: e3\n# harness: %s\n# check: %s\n# text: %s\n# decoded: %s\n# model: %s\n" % (
+                    prop, h["name"], f["check"], r["text"], json.dumps(r["decoded"]), json.dumps(f.get("model", {}))))
+            ok = f.get("reproduced", True)
+            sr["failed"].append({"check": f["check"], "file": "riscv_analysis/src/parser/parsing.rs", "line": None,
+                                 "function": "ParserNode::try_from", "replay": path, "values": f.get("model"),
+                                 "dev": "reproduced" if ok else "not-reproduced", "dev_msg": "text '%s' decodes to %s" % (r["text"], json.dumps(r["decoded"].get("nodes", r["decoded"]))),
+                                 "release": None})
+        out.append(sr)
+    return out
 
 
 # --------------------------------------------------------------------------
@@ -371,6 +538,16 @@ def run_property(prop, tier, seed, jobs, only, write_evidence=True):
         wq.put(i)
     known = load_known()
     results = []
+    e2_hs = [h for h in hs if h.get("engine") == "e2"]
+    e3_hs = [h for h in hs if h.get("engine") == "e3"]
+    hs = [h for h in hs if h.get("engine", "kani") == "kani"]
+    side = []
+    if e2_hs:
+        side.append(threading.Thread(target=lambda: results.extend(run_e2(prop, e2_hs))))
+    if e3_hs:
+        side.append(threading.Thread(target=lambda: results.extend(run_e3(prop, e3_hs))))
+    for t in side:
+        t.start()
     with cf.ThreadPoolExecutor(max_workers=jobs) as ex:
         futs = {ex.submit(run_harness, prop, h, tier, wq, logdir): h for h in hs}
         for f in cf.as_completed(futs):
@@ -385,6 +562,11 @@ def run_property(prop, tier, seed, jobs, only, write_evidence=True):
             results.append(r)
             print("  %-34s %-12s %6.1fs  %s" % (r["harness"], r["verdict"], r["wall_s"], r["reason"]),
                   flush=True)
+    for t in side:
+        t.join()
+    for r in results:
+        if r.get("side_engine"):
+            print("  %-34s %-12s %6.1fs  %s" % (r["harness"], r["verdict"], r["wall_s"], r["reason"]), flush=True)
     results.sort(key=lambda r: r["harness"])
 
     violations, known_hits, inconclusive, nonrepro = [], [], [], []
@@ -436,7 +618,7 @@ def write_evidence_file(prop, tier, seed, results, violations, known_hits, incon
     samples = []
     for r in results[:]:
         samples.append({
-            "harness": r["spec"]["kani_name"], "obligation": r["spec"].get("desc", ""),
+            "harness": r["spec"].get("kani_name", r["spec"]["name"]), "engine": r["spec"].get("engine", "kani"), "obligation": r["spec"].get("desc", ""),
             "symbolic_inputs": r["spec"].get("symbolic", ""), "bounds": r["spec"].get("bounds", ""),
             "stubs": r["spec"].get("stubs", []), "verdict": r["verdict"], "reason": r["reason"],
             "checks_discharged": r["n_checks"], "covers": r["covers"],
@@ -458,7 +640,7 @@ def write_evidence_file(prop, tier, seed, results, violations, known_hits, incon
                      "kani::cover! reachability witness was SATISFIED; harness names are distinct by construction"),
             "samples": samples,
             "exhaustive": False,
-            "engine": "Kani 0.68.0 / CBMC 6.11.0 (CaDiCaL), dev profile: overflow checks and debug assertions on",
+            "engine": "E1: Kani 0.68.0 / CBMC 6.11.0 (CaDiCaL), dev profile; E2: MIR (nightly -Zunpretty=mir, overflow-checks on and off) -> SMT-LIB, z3 4.8.12 + cvc5 1.0; E3: native decode of catalogue text + SMT-LIB, z3 + cvc5",
             "functions_encoded": functions,
             "queries_discharged": sum(r["n_checks"] for r in conclusive),
             "solver_time_s": round(sum(r["solver_s"] or 0 for r in results), 2),
